@@ -153,7 +153,12 @@ func scenStateMsg(e *Env, args []string, r *rand.Rand) {
 	if estrace {
 		state = "openConfirm"
 	}
-	c := p.bring(dir, state, 90, remoteID)
+	rhold := uint16(atoi(m["rhold"], 90))
+	c := p.bring(dir, state, rhold, remoteID)
+	if w := atoi(m["wait"], 0); w > 0 && c != nil {
+		// the stimulus comes after a long quiet time
+		time.Sleep(time.Duration(w) * time.Millisecond)
+	}
 	if c != nil && m["second"] == "1" {
 		p.mark = e.tr.len()
 		switch m["prelude"] {
@@ -169,7 +174,7 @@ func scenStateMsg(e *Env, args []string, r *rand.Rand) {
 			c.send(wire.Notification(6, 4, nil))
 		}
 		c.waitEnd(stepWait)
-		c = p.bring(dir, state, 90, remoteID)
+		c = p.bring(dir, state, rhold, remoteID)
 	}
 	if c != nil {
 		pre := []byte(nil)
@@ -268,6 +273,14 @@ func openVariant(name string, lid uint32) []byte {
 	case "valid-cap4-first-of-3":
 		// the 4-octet-AS capability sits in the first of three capability parameters (RFC 5492 allows the split)
 		return ok(4, remoteAS, 90, remoteID, []wire.Param{{Typ: 2, Caps: []wire.Cap{cap4}}, {Typ: 2, Caps: []wire.Cap{mp}}, {Typ: 2, Caps: []wire.Cap{{Code: 70, Val: []byte{9}}}}})
+	case "valid-id240":
+		return ok(4, remoteAS, 90, 0xf0000001, std)
+	case "valid-id255":
+		return ok(4, remoteAS, 90, 0xfffffffe, std)
+	case "valid-id223":
+		return ok(4, remoteAS, 90, 0xdfffffff, std)
+	case "id-multicast239":
+		return ok(4, remoteAS, 90, 0xefffffff, std)
 	case "valid-astrans":
 		return ok(4, 23456, 90, remoteID, std)
 	case "valid-hold0":
@@ -314,7 +327,7 @@ func openVariant(name string, lid uint32) []byte {
 
 var openVariants = []string{"valid", "valid-2params", "valid-astrans", "valid-hold0", "valid-hold3", "version3", "badas", "badas4",
 	"astrans-nocap", "hold1", "hold2", "id-multicast", "nocap4", "cap4-len3", "param-unknown", "noparams", "emptyparam",
-	"optlen-long", "cap-overrun", "short", "maxsize", "maxsize-1", "valid-cap4-first-of-3"}
+	"optlen-long", "cap-overrun", "short", "maxsize", "maxsize-1", "valid-cap4-first-of-3", "valid-id240", "valid-id255", "valid-id223", "id-multicast239"}
 
 // handshake:<dir>:<variant>[:veto][:sameas][:hold=<local hold>]
 func scenHandshake(e *Env, args []string, r *rand.Rand) {
@@ -370,7 +383,15 @@ func scenHandshake(e *Env, args []string, r *rand.Rand) {
 			e.close()
 			return
 		}
-		c.send(wire.Header(1, body))
+		if sp := atoi(m["split"], 0); sp > 0 && sp < len(body)+19 {
+			// the OPEN arrives in two TCP segments, cut at octet <split>, with a pause in between
+			whole := wire.Header(1, body)
+			c.send(whole[:sp])
+			time.Sleep(60 * time.Millisecond)
+			c.send(whole[sp:])
+		} else {
+			c.send(wire.Header(1, body))
+		}
 		msgs := c.waitMsgs(2, stepWait)
 		if len(msgs) >= 2 && msgs[1][18] == 4 {
 			// accepted: complete the handshake, then exchange one UPDATE each way
@@ -402,6 +423,9 @@ func scenUpdates(e *Env, args []string, r *rand.Rand) {
 	}
 	// slow=<µs>: the handler takes that long, so the reader gets ahead of the FSM goroutine
 	p.plugin.HandlerDelay = time.Duration(atoi(m["slow"], 0)) * time.Microsecond
+	if ve := atoi(m["echo"], 0); ve > 0 {
+		p.plugin.VetoEcho = ve
+	}
 	// end=fin | badhdr: the remote half-closes (or sends a faulty header) directly behind the last UPDATE: every
 	// UPDATE it sent before that must still be delivered
 	end := m["end"]
@@ -482,6 +506,9 @@ func scenUpdates(e *Env, args []string, r *rand.Rand) {
 		if veto > 0 && veto <= nupd {
 			want = veto
 		}
+		if ve := atoi(m["echo"], 0); ve > 0 && ve <= nupd {
+			want = ve
+		}
 		deadline := time.Now().Add(5 * time.Second)
 		for time.Now().Before(deadline) {
 			p.plugin.mu.Lock()
@@ -492,7 +519,7 @@ func scenUpdates(e *Env, args []string, r *rand.Rand) {
 			}
 			time.Sleep(time.Millisecond)
 		}
-		if (veto > 0 && veto <= nupd) || end != "" {
+		if (veto > 0 && veto <= nupd) || end != "" || atoi(m["echo"], 0) > 0 {
 			c.waitEnd(stepWait)
 		}
 		time.Sleep(10 * time.Millisecond)
@@ -547,6 +574,8 @@ func init() {
 			out = append(out, fmt.Sprintf("state-msg:%s:openSent:open:trail=2:slowlog=25", dir), fmt.Sprintf("state-msg:%s:estrace:open:slowlog=25", dir),
 				fmt.Sprintf("state-msg:%s:openSent:ka:slowlog=25", dir))
 		}
+		// negotiated hold time 0: UPDATEs, then a faulty header / FIN
+		out = append(out, "updates:in:n=8:hold=0:end=badhdr:k=c9a", "updates:out:n=8:hold=0:end=fin:k=c9b")
 		// a Cease arrives while application writers are blocked by the remote's full window
 		out = append(out, "writers:out:k=3:n=60:end=none:inside=0:big=1:stall=2600:ceaseat=300:ms=100:i=0", "writers:out:k=3:n=60:end=none:inside=0:big=1:stall=2600:ceaseat=500:ms=100:i=1")
 		// the stimulus travels directly behind the KEEPALIVE that establishes the session
@@ -569,6 +598,11 @@ func init() {
 						out = append(out, fmt.Sprintf("state-msg:%s:%s:%s:seg=%d", dir, st, s, seg))
 					}
 				}
+				// a fault long after the last KEEPALIVE corebgp sent (negotiated hold time 0, configured 3 s): the NOTIFICATION
+				// still reaches the wire
+				if st != "openSent" {
+					out = append(out, fmt.Sprintf("state-msg:%s:%s:badmarker:hold=3:rhold=0:wait=3300", dir, st))
+				}
 				// what was left unread of an earlier connection of the same FSM (a cut message, octets behind a Cease) is not
 				// read into the next connection
 				if dir == "out" {
@@ -585,6 +619,16 @@ func init() {
 		}
 		return out
 	}
+	{
+		prev := scenarioLists["C08"]
+		scenarioLists["C08"] = func(tier string, r *rand.Rand) []string {
+			out := prev(tier, r)
+			// messages pipelined behind an UPDATE while its handler is still busy (what the handler holds, and a
+			// NOTIFICATION built from it, are not overwritten by what the reader reads next)
+			out = append(out, "updates:in:n=14:slow=3000:end=badhdr:k=c8a", "updates:out:n=14:slow=3000:echo=3:k=c8b", "updates:in:n=14:slow=3000:echo=2:k=c8d", "updates:in:n=10:hold=0:end=badhdr:k=c8c")
+			return out
+		}
+	}
 	scenarioLists["C02"] = func(tier string, r *rand.Rand) []string {
 		var out []string
 		for _, dir := range []string{"out", "in"} {
@@ -592,6 +636,9 @@ func init() {
 				out = append(out, fmt.Sprintf("handshake:%s:%s", dir, v))
 			}
 			out = append(out, fmt.Sprintf("handshake:%s:valid-burst", dir), fmt.Sprintf("handshake:%s:valid-burst-notif", dir))
+			for _, sp := range []int{10, 19, 24, 29, 35, 44} {
+				out = append(out, fmt.Sprintf("handshake:%s:valid-2params:split=%d", dir, sp))
+			}
 			out = append(out, fmt.Sprintf("handshake:%s:valid:veto", dir), fmt.Sprintf("handshake:%s:valid:sameas", dir),
 				fmt.Sprintf("handshake:%s:valid-hold3:hold=3", dir), fmt.Sprintf("handshake:%s:valid:hold=0", dir))
 		}
